@@ -45,8 +45,12 @@ def _merge_stubs_docstring(obj: Object, stubs: Object) -> None:
 def _merge_stubs_overloads(obj: Module | Class, stubs: Module | Class) -> None:
     for function_name, overloads in list(stubs.overloads.items()):
         if overloads:
-            with suppress(KeyError):
-                obj.get_member(function_name).overloads = overloads
+            # Only functions can be overloaded: skip members of another kind,
+            # as well as aliases that cannot be resolved.
+            with suppress(KeyError, AliasResolutionError, CyclicAliasError):
+                member = obj.get_member(function_name)
+                if member.is_function:
+                    member.overloads = overloads
         del stubs.overloads[function_name]
 
 
